@@ -110,10 +110,16 @@ theorem as_str_injective (a b : ExchangeId) (h : a.asStr = b.asStr) : a = b := b
 
 /-- serde's snake_case rename of the variant identifier, `as_str`, and the documented reading
 (words of the identifier, lower-cased, joined by `_`) are one table. -/
-theorem ser_as_str_spec_agree (e : ExchangeId) :
-    e.ser = e.asStr ∧ e.asStr = specExchangeName e := by
-  have : ∀ e ∈ ExchangeId.all, e.ser = e.asStr ∧ e.asStr = specExchangeName e := by decide +kernel
+theorem ser_eq_as_str (e : ExchangeId) : e.ser = e.asStr := by
+  have : ∀ e ∈ ExchangeId.all, e.ser = e.asStr := by decide +kernel
   exact this e (mem_all e)
+
+theorem as_str_eq_spec (e : ExchangeId) : e.asStr = specExchangeName e := by
+  have : ∀ e ∈ ExchangeId.all, e.asStr = specExchangeName e := by decide +kernel
+  exact this e (mem_all e)
+
+theorem ser_as_str_spec_agree (e : ExchangeId) :
+    e.ser = e.asStr ∧ e.asStr = specExchangeName e := ⟨ser_eq_as_str e, as_str_eq_spec e⟩
 
 /-- `Display` is the variant identifier: never equal to `as_str`; lower-cased it is `as_str` with
 the underscores removed. -/
@@ -213,7 +219,7 @@ theorem new_from_exchange_underlying_eq (e : ExchangeId) (b q : Str) :
   simp
 
 /-- The two "from exchange" constructors name the same instrument differently exactly for the
-exchanges whose `as_str` contains an underscore (26 of the 42). -/
+exchanges whose `as_str` contains an underscore (16 of the 42). -/
 theorem underlying_agrees_iff (e : ExchangeId) :
     (∀ b q : Str, InstrumentNameInternal.newFromExchangeUnderlying e b q =
         InstrumentNameInternal.newFromExchange e (b ++ '_' :: q)) ↔ '_' ∉ e.asStr := by
@@ -411,6 +417,26 @@ theorem find_instrument_error_iff {defs : List Def} {ii : Indexed} (h : build de
   simp only [Option.map_eq_none_iff, List.getElem?_eq_none_iff]
   exact And.comm
 
+/-- The accessor tables: `exchanges()` holds exactly the exchanges of the definitions,
+`assets()` exactly the (exchange, asset) pairs they mention (base, quote, settlement, quantity unit),
+each once, and in all three tables the key of an entry is its position. -/
+theorem accessor_tables {defs : List Def} {ii : Indexed} (h : build defs = some ii) :
+    (∀ e, e ∈ (exchanges ii).map (·.value) ↔ ∃ d ∈ defs, d.exchange = e) ∧
+    (∀ x, x ∈ (assets ii).map (·.value) ↔ ∃ d ∈ defs, x.exchange = d.exchange ∧ x.asset ∈ d.assetRefs) ∧
+    ((exchanges ii).map (·.value)).Nodup ∧ ((assets ii).map (·.value)).Nodup ∧
+    (∀ (k : Nat) x, (exchanges ii)[k]? = some x → x.key = k) ∧
+    (∀ (k : Nat) x, (assets ii)[k]? = some x → x.key = k) ∧
+    (∀ (k : Nat) x, (instruments ii)[k]? = some x → x.key = k) := by
+  obtain ⟨h1, h2, _⟩ := build_some defs ii h
+  have hd := C11.dense h
+  refine ⟨?_, ?_, ?_, ?_, hd.1, hd.2.1, hd.2.2⟩
+  · intro e; rw [exchanges, h1, map_value_enumerate, mem_sortedExchanges]
+  · intro x
+    rw [assets, h2, map_value_enumerate, mem_sortedAssets, List.mem_flatMap]
+    simp only [mem_defAssets]
+  · rw [exchanges, h1, map_value_enumerate]; exact nodup_sortedExchanges defs
+  · rw [assets, h2, map_value_enumerate]; exact nodup_sortedAssets defs
+
 /-- `exchanges()` lists the exchange ids in strictly ascending (declaration) order. -/
 theorem exchanges_sorted {defs : List Def} {ii : Indexed} (h : build defs = some ii) :
     ((exchanges ii).map (·.value)).Pairwise (· < ·) := by
@@ -486,5 +512,267 @@ theorem find_instrument_index_least {defs : List Def} {ii : Indexed} (h : build 
   · subst heq
     rw [hd] at hk; cases hk
     exact List.le_refl _
+
+/-! ## F. `Instrument` constructors, key mapping, kind accessors -/
+
+/-- `Instrument::new` normalises exactly the internal name; `Instrument::spot` is `new` with the
+underlying quote as quote asset and the spot kind. -/
+theorem instrument_new_fields {E A : Type} (e : E) (ni ne : Str) (b q : A) (qa : Nat) (k : Kind A)
+    (sp : Option (Spec A)) :
+    let i := Names.Instrument.new e ni ne b q qa k sp
+    i.exchange = e ∧ i.nameInternal = .new ni ∧ i.nameExchange.name = ne ∧ i.base = b ∧ i.quote = q ∧
+      i.quoteAsset = qa ∧ i.kind = k ∧ i.spec = sp ∧
+      Names.Instrument.spot e ni ne b q sp = Names.Instrument.new e ni ne b q 1 .spot sp :=
+  ⟨rfl, rfl, rfl, rfl, rfl, rfl, rfl, rfl, rfl⟩
+
+/-- `map_exchange_key` replaces the exchange key and nothing else; mapping twice = mapping once. -/
+theorem map_exchange_key_laws {E E' E'' A : Type} (i : Names.Instrument E A) (e' : E') (e'' : E'') :
+    (i.mapExchangeKey e').exchange = e' ∧ (i.mapExchangeKey e').assetRefs = i.assetRefs ∧
+      (i.mapExchangeKey e').nameInternal = i.nameInternal ∧
+      (i.mapExchangeKey e').mapExchangeKey e'' = i.mapExchangeKey e'' ∧ i.mapExchangeKey i.exchange = i :=
+  ⟨rfl, rfl, rfl, rfl, by cases i; rfl⟩
+
+/-- `map_asset_key_with_lookup` fails exactly with the lookup's error for the first asset reference
+(base, quote, settlement asset, quantity-unit asset) that the lookup does not find … -/
+theorem map_asset_key_error_iff {ε E A B : Type} (f : A → Except ε B) (i : Names.Instrument E A) (x : ε) :
+    i.mapAssetKeyWithLookup f = .error x ↔
+      ∃ pre a post, i.assetRefs = pre ++ a :: post ∧ (∀ p ∈ pre, ∃ b, f p = .ok b) ∧ f a = .error x := by
+  rw [mapAssetKey_error_iff, firstError_some_iff]
+
+/-- … and succeeds exactly when every reference is found. -/
+theorem map_asset_key_ok_iff {ε E A B : Type} (f : A → Except ε B) (i : Names.Instrument E A) :
+    (∃ r, i.mapAssetKeyWithLookup f = .ok r) ↔ ∀ a ∈ i.assetRefs, ∃ b, f a = .ok b := by
+  rw [except_cases, ← firstError_none_iff]
+  simp only [mapAssetKey_error_iff]
+  cases firstError f i.assetRefs <;> simp
+
+/-- The C11 builder model uses the `Option` form of this function (an `Err` is a panic there): it is
+this function with the error forgotten. -/
+theorem map_asset_key_is_builders {ε E A B : Type} (f : A → Except ε B) (i : Names.Instrument E A) :
+    (i.mapAssetKeyWithLookup f).toOption.map eraseNames =
+      (eraseNames i).mapAssetKeyWithLookup (fun a => (f a).toOption) :=
+  mapAssetKey_option_view f i
+
+/-- the identity lookup is the identity -/
+theorem map_asset_key_id {ε E A : Type} (i : Names.Instrument E A) :
+    i.mapAssetKeyWithLookup (fun a => (Except.ok a : Except ε A)) = .ok i := by
+  obtain ⟨e, ni, ne, b, q, qa, k, sp⟩ := i
+  cases k <;> cases sp <;> simp [Names.Instrument.mapAssetKeyWithLookup, kindMapE, specMapE, Except.map]
+  all_goals (rename_i s; obtain ⟨pm, tk, u, qm, qi, nm⟩ := s; cases u <;> simp)
+
+/-- The market-data view of an instrument: internal names of the underlying, the kind without
+contract size and settlement asset; `eq_market_data_instrument_kind` accepts it; spot has contract
+size 1. -/
+theorem market_data_of_instrument {E : Type} (i : Names.Instrument E Names.Asset) :
+    (MarketDataInstrument.ofInstrument i).base = i.base.nameInternal ∧
+    (MarketDataInstrument.ofInstrument i).quote = i.quote.nameInternal ∧
+    eqMarketDataKind i.kind (MarketDataInstrument.ofInstrument i).kind = true ∧
+    contractSize (Kind.spot : Kind Names.Asset) = 1 := by
+  refine ⟨rfl, rfl, ?_, rfl⟩
+  cases h : i.kind <;>
+    simp [MarketDataInstrument.ofInstrument, MDKind.ofKind, eqMarketDataKind, h, Dec.toRat]
+  grind
+
+/-- `MarketDataInstrument::new` lower-cases both names; its `Display` is `base_quote_kind`. -/
+theorem market_data_new (b q : Str) (k : MDKind) :
+    (MarketDataInstrument.new b q k).base.name = lowerStr b ∧
+    (MarketDataInstrument.new b q k).quote.name = lowerStr q ∧
+    (MarketDataInstrument.new b q k).display = lowerStr b ++ '_' :: lowerStr q ++ '_' :: k.display := by
+  simp [MarketDataInstrument.new, MarketDataInstrument.display, AssetNameInternal.new,
+    AssetNameInternal.display, nameNew_eq_lowerStr]
+
+/-! ## G. the lookup API on string-named definitions: refinement to the documented behaviour -/
+
+theorem build_total (defs : List SDef) : ∃ ii, buildS defs = some ii := C11.build_total _
+
+/-- `find_exchange_index` answers `Ok` exactly for the exchanges added during initialisation,
+otherwise `IndexError::ExchangeIndex`; the positional lookup of the answer gives the exchange back. -/
+theorem lookup_exchange_refines_spec {defs : List SDef} {ii : Indexed} (h : buildS defs = some ii)
+    (e : ExchangeId) :
+    ((∃ i, findExchangeIndex ii e.toNat = .ok i) ↔ specHasExchange defs e = true) ∧
+    (∀ x, findExchangeIndex ii e.toNat = .error x → x = .exchangeIndex) ∧
+    (∀ i, findExchangeIndex ii e.toNat = .ok i → findExchange ii i = .ok e.toNat) := by
+  refine ⟨?_, fun x hx => ((find_exchange_index_error_iff h _ x).mp hx).1, fun i hi => ?_⟩
+  · rw [except_cases]
+    simp only [find_exchange_index_error_iff h, specHasExchange, List.any_eq_true, beq_iff_eq,
+      List.mem_map]
+    constructor
+    · intro hne
+      apply Classical.byContradiction
+      intro hno
+      exact hne ⟨_, rfl, fun d ⟨d', hd', hdd⟩ he => hno ⟨d', hd', toNat_inj (by rw [← hdd] at he; exact he)⟩⟩
+    · rintro ⟨d, hd, rfl⟩ ⟨x, _, hx⟩
+      exact hx (toDef d) ⟨d, hd, rfl⟩ rfl
+  · exact (find_exchange_ok_iff h i _).mpr ((find_exchange_index_ok_iff h _ i).mp hi)
+
+/-- `find_asset_index(exchange, name)`: `Ok` exactly when a definition on that exchange mentions an
+asset (base, quote, settlement, quantity unit) with that internal name, otherwise
+`IndexError::AssetIndex`; `find_asset` of the answer is an asset of that exchange with that name. -/
+theorem lookup_asset_refines_spec {defs : List SDef} {ii : Indexed} (h : buildS defs = some ii)
+    (hshort : ∀ d ∈ defs, d.Short) (e : ExchangeId) (n : AssetNameInternal) (hn : n.name.length ≤ L) :
+    ((∃ i, findAssetIndexS ii e n = .ok i) ↔ specHasAsset defs e n = true) ∧
+    (∀ x, findAssetIndexS ii e n = .error x → x = .assetIndex) ∧
+    (∀ i, findAssetIndexS ii e n = .ok i →
+      ∃ y, findAsset ii i = .ok y ∧ y.exchange = e.toNat ∧ y.asset.nameInternal = code n.name) := by
+  refine ⟨?_, fun x hx => ((find_asset_index_error_iff h _ _ x).mp hx).1, fun i hi => ?_⟩
+  · rw [except_cases]
+    simp only [findAssetIndexS, find_asset_index_error_iff h, specHasAsset, List.any_eq_true,
+      Bool.and_eq_true, beq_iff_eq, List.mem_map]
+    constructor
+    · intro hne
+      apply Classical.byContradiction
+      intro hno
+      refine hne ⟨_, rfl, ?_⟩
+      rintro d ⟨d', hd', rfl⟩ he a ha hcode
+      rw [toDef_assetRefs, List.mem_map] at ha
+      obtain ⟨a', ha', rfl⟩ := ha
+      refine hno ⟨d', hd', toNat_inj he, a', ha', ?_⟩
+      have hs := ((hshort d' hd').2.2 a' ha').1
+      have := code_inj _ _ hs hn hcode
+      cases hx : a'.nameInternal; cases n; simp_all
+    · rintro ⟨d, hd, rfl, a, ha, rfl⟩ ⟨x, _, hx⟩
+      exact hx (toDef d) ⟨d, hd, rfl⟩ rfl a.erase
+        (by rw [toDef_assetRefs]; exact List.mem_map.mpr ⟨a, ha, rfl⟩) rfl
+  · obtain ⟨⟨y, hy, hye, hyn⟩, _⟩ := (find_asset_index_ok_iff h _ _ i).mp hi
+    exact ⟨y, (find_asset_ok_iff h i y).mpr hy, hye, hyn⟩
+
+/-- `find_instrument_index(exchange, name)`: `Ok` exactly when a definition with that exchange and
+that internal name was added; `find_instrument` of the answer is such an instrument. The error of a
+miss is `IndexError::AssetIndex` — NOT the `InstrumentIndex` variant that index/error.rs documents
+for "a failure to find an InstrumentIndex for a given instrument identifier". -/
+theorem lookup_instrument_refines_spec {defs : List SDef} {ii : Indexed} (h : buildS defs = some ii)
+    (hshort : ∀ d ∈ defs, d.Short) (e : ExchangeId) (n : InstrumentNameInternal)
+    (hn : n.name.length ≤ L) :
+    ((∃ i, findInstrumentIndexS ii e n = .ok i) ↔ specHasInstrument defs e n = true) ∧
+    (∀ x, findInstrumentIndexS ii e n = .error x → x = .assetIndex) ∧
+    (∀ i, findInstrumentIndexS ii e n = .ok i →
+      ∃ y, findInstrument ii i = .ok y ∧ y.exchange.value = e.toNat ∧ y.nameInternal = code n.name) := by
+  refine ⟨?_, fun x hx => ((find_instrument_index_error_iff h _ _ x).mp hx).1, fun i hi => ?_⟩
+  · rw [except_cases]
+    simp only [findInstrumentIndexS, find_instrument_index_error_iff h, specHasInstrument,
+      List.any_eq_true, Bool.and_eq_true, beq_iff_eq, List.mem_map]
+    constructor
+    · intro hne
+      apply Classical.byContradiction
+      intro hno
+      refine hne ⟨_, rfl, ?_⟩
+      rintro d ⟨d', hd', rfl⟩ ⟨he, hcode⟩
+      refine hno ⟨d', hd', toNat_inj he, ?_⟩
+      have := code_inj _ _ (hshort d' hd').1 hn hcode
+      cases hx : d'.nameInternal; cases n; simp_all
+    · rintro ⟨d, hd, rfl, rfl⟩ ⟨x, _, hx⟩
+      exact hx (toDef d) ⟨d, hd, rfl⟩ ⟨rfl, rfl⟩
+  · obtain ⟨⟨y, hy, hye, hyn⟩, _⟩ := (find_instrument_index_ok_iff h _ _ i).mp hi
+    exact ⟨y, (find_instrument_ok_iff h i y).mpr hy, hye, hyn⟩
+
+/-- The counter-documentation fact on its own: a missing instrument is reported with the asset
+variant, whatever the index. -/
+theorem missing_instrument_reports_asset_error {defs : List Def} {ii : Indexed}
+    (h : build defs = some ii) (e n : Nat) (x : IndexError)
+    (hx : findInstrumentIndex ii e n = .error x) : x = .assetIndex ∧ x ≠ .instrumentIndex := by
+  have := ((find_instrument_index_error_iff h e n x).mp hx).1
+  subst this
+  exact ⟨rfl, by decide⟩
+
+/-- Lookups by name ignore the case of the (ASCII) name handed to the constructor. -/
+theorem lookup_ignores_case (ii : Indexed) (e : ExchangeId) (s t : Str) (hs : IsAscii s)
+    (ht : IsAscii t) (hc : caseEq s t = true) :
+    findAssetIndexS ii e (.new s) = findAssetIndexS ii e (.new t) ∧
+    findInstrumentIndexS ii e (.new s) = findInstrumentIndexS ii e (.new t) := by
+  have ⟨h1, h2⟩ := internal_name_eq_iff_caseEq s t hs ht
+  rw [h1.mpr hc, h2.mpr hc]
+  exact ⟨rfl, rfl⟩
+
+/-- Positional lookups: index `i` is valid exactly below the table length; an out-of-range index
+gives the error variant of its own kind. -/
+theorem positional_lookups {defs : List Def} {ii : Indexed} (h : build defs = some ii) (i : Nat) :
+    ((∃ e, findExchange ii i = .ok e) ↔ i < (exchanges ii).length) ∧
+    ((∃ a, findAsset ii i = .ok a) ↔ i < (assets ii).length) ∧
+    ((∃ x, findInstrument ii i = .ok x) ↔ i < (instruments ii).length) := by
+  refine ⟨?_, ?_, ?_⟩
+  · rw [except_cases]; simp only [find_exchange_error_iff h]; simp
+  · rw [except_cases]; simp only [find_asset_error_iff h]; simp
+  · rw [except_cases]; simp only [find_instrument_error_iff h]; simp
+
+/-! ## H. what `Display` prints for decimals and dates -/
+
+/-- The date part of a market-data kind is a real calendar position (month 1–12, day 1–31). -/
+theorem civil_ranges (n : Nat) :
+    1 ≤ (civil n).2.1 ∧ (civil n).2.1 ≤ 12 ∧ 1 ≤ (civil n).2.2 ∧ (civil n).2.2 ≤ 31 := by
+  simp only [civil]
+  split <;> omega
+
+theorem dec_display_integer (m : Int) :
+    (Dec.mk m 0).display = (if m < 0 then ['-'] else []) ++ Nat.toDigits 10 m.natAbs := by
+  have := @Nat.length_toDigits_pos 10 m.natAbs
+  simp only [Dec.display]
+  have h : 0 + 1 - (Nat.toDigits 10 m.natAbs).length = 0 := by omega
+  simp [h]
+
+/-- `Display` shows the scale: equal decimals (so equal, and equally hashed, `MarketDataInstrument`s)
+can print differently, e.g. strike 50000 vs 50000.0. -/
+theorem display_not_value_function :
+    (Dec.mk 50000 0).toRat = (Dec.mk 500000 1).toRat ∧
+      (Dec.mk 50000 0).display ≠ (Dec.mk 500000 1).display := by
+  refine ⟨?_, by decide⟩
+  simp [Dec.toRat]
+  grind
+
+/-! ## Non-vacuity -/
+
+example : IsAscii "BtC_usdt-1".toList := by decide
+example : (AssetNameInternal.new "BtC_usdt-1".toList).name = "btc_usdt-1".toList := by decide
+example : caseEq "BtC".toList "bTc".toList = true ∧ caseEq "btc".toList "bt_".toList = false := by decide
+/-- outside ASCII, inside the modelled blocks (Latin-1, Greek, Cyrillic, U+0130 → two characters) -/
+example : (AssetNameInternal.new "ÀΣЯİx".toList).name = "àσяi̇x".toList := by decide
+example : ¬ IsAscii "ÀΣЯİx".toList := by decide
+example : (InstrumentNameInternal.newFromExchange .gateioPerpetualsUsd "BTC_USDT".toList).name =
+    "gateio_perpetuals_usd-btc_usdt".toList := by decide
+example : '_' ∈ ExchangeId.binanceSpot.asStr ∧ '_' ∉ ExchangeId.kraken.asStr := by decide
+example : (Dec.mk (-5) 3).display = "-0.005".toList ∧ (Dec.mk 0 2).display = "0.00".toList := by decide
+example : dateDisplay 951782400000 = "2000-02-29".toList ∧
+    dateDisplay 253402300799999 = "9999-12-31".toList := by decide
+example : (MarketDataInstrument.new "BTC".toList "usd".toList
+    (.option 1 1 1703980800000 ⟨500000, 1⟩)).display =
+      "btc_usd_option_put_bermudan_2023-12-31-UTC_50000.0".toList := by decide
+example : code "BTC".toList < code "btc".toList ∧ code "ab".toList < code "abc".toList ∧
+    decode (code "xbt/usd".toList) = "xbt/usd".toList := by decide +kernel
+
+/-- Three definitions: two on one exchange sharing the internal name `btc_usdt` (written in two
+cases, different exchange names: both are kept), the assets written through `Asset::new`. -/
+def exBtc : Names.Asset := Asset.new "BTC".toList "XBT".toList
+def exUsdt : Names.Asset := Asset.new "usdt".toList "USDT".toList
+def exDefs : List SDef :=
+  [ Names.Instrument.new .binanceSpot "BTC_USDT".toList "XBTUSDT".toList exBtc exUsdt 1 .spot none,
+    Names.Instrument.new .binanceSpot "btc_usdt".toList "BTCUSDT".toList exBtc exUsdt 1
+      (.perpetual 1 exUsdt) (some ⟨1, 1, .asset exBtc, 1, 1, 1⟩),
+    Names.Instrument.spot .kraken "Btc_Usdt".toList "XBT/USDT".toList exBtc exUsdt none ]
+
+example : ∀ d ∈ exDefs, d.Short := by decide
+example : ∃ ii, buildS exDefs = some ii ∧
+    (∃ i, findInstrumentIndexS ii .binanceSpot (.new "Btc_usdT".toList) = .ok i) ∧
+    (∃ i, findAssetIndexS ii .kraken (.new "BTC".toList) = .ok i) ∧
+    findInstrumentIndexS ii .okx (.new "Btc_usdT".toList) = .error .assetIndex ∧
+    findExchangeIndex ii ExchangeId.okx.toNat = .error .exchangeIndex := by
+  obtain ⟨ii, h⟩ := build_total exDefs
+  have hs : ∀ d ∈ exDefs, d.Short := by decide
+  refine ⟨ii, h, ?_, ?_, ?_, ?_⟩
+  · exact (lookup_instrument_refines_spec h hs _ _ (by decide)).1.mpr (by decide)
+  · exact (lookup_asset_refines_spec h hs _ _ (by decide)).1.mpr (by decide)
+  · have h3 := lookup_instrument_refines_spec h hs .okx (.new "Btc_usdT".toList) (by decide)
+    cases hr : findInstrumentIndexS ii .okx (.new "Btc_usdT".toList) with
+    | ok i => exact absurd (h3.1.mp ⟨i, hr⟩) (by decide)
+    | error x => rw [h3.2.1 x hr]
+  · have h3 := lookup_exchange_refines_spec h .okx
+    cases hr : findExchangeIndex ii ExchangeId.okx.toNat with
+    | ok i => exact absurd (h3.1.mp ⟨i, hr⟩) (by decide)
+    | error x => rw [h3.2.1 x hr]
+/-- the perpetual of `exDefs`: base is found, quote `usdt` is the first reference that is not -/
+example : Names.Instrument.mapAssetKeyWithLookup
+    (fun a : Names.Asset => if a.nameInternal.name = "usdt".toList then
+      (Except.error a.nameInternal : Except AssetNameInternal AssetNameExchange) else .ok a.nameExchange)
+    exDefs[1] = .error ⟨"usdt".toList⟩ := by
+  rw [mapAssetKey_error_iff]
+  decide
 
 end BarterModel.Props.C11N
